@@ -224,9 +224,9 @@ func (a *App) session(c *Consent, now time.Time) *SimSession {
 		s.Claims.ExpiresAt = now.Add(time.Duration(c.PresetIDExp) * time.Second)
 	}
 	for k, v := range c.Extra {
-		s.Claims.Extra[k] = v
+		// extra claims of the session surface at introspection (ExtraClaimsSession); they are not copied into the
+		// JWT / ID-token claim sets, where the application would be overriding registered claims on purpose
 		s.Extra[k] = v
-		s.JWTClaims.Extra[k] = v
 	}
 	return s
 }
